@@ -5,6 +5,7 @@ import (
 	"encoding/json"
 	"fmt"
 	"strings"
+	"sync/atomic"
 
 	"github.com/matrix-org/gomatrixserverlib/spec"
 	"github.com/tidwall/gjson"
@@ -66,7 +67,7 @@ func newEventFromUntrustedJSONV3(eventJSON []byte, roomVersion IRoomVersion) (PD
 		return nil, BadJSONError{err}
 	}
 
-	res := &eventV3{}
+	res := &eventV3{eventV2: eventV2{eventID: new(atomic.Pointer[string])}}
 	var err error
 	// Synapse removes these keys from events in case a server accidentally added them.
 	// https://github.com/matrix-org/synapse/blob/v0.18.5/synapse/crypto/event_signing.py#L57-L62
@@ -126,7 +127,7 @@ func newEventFromUntrustedJSONV3(eventJSON []byte, roomVersion IRoomVersion) (PD
 }
 
 func newEventFromTrustedJSONV3(eventJSON []byte, redacted bool, roomVersion IRoomVersion) (PDU, error) {
-	res := eventV3{}
+	res := eventV3{eventV2: eventV2{eventID: new(atomic.Pointer[string])}}
 	if err := json.Unmarshal(eventJSON, &res); err != nil {
 		return nil, err
 	}
